@@ -250,7 +250,57 @@ def run_impl(case):
     except Exception as e:
         out['matches_error'] = type(e).__name__
     out['target_untouched'] = repr(r.encode(target)) == snap
+    # the same target with every tuple replaced by an instance of a tuple SUBCLASS (a namedtuple-like row): conforms exactly when
+    # the plain one does, and the result is the same value (defaults of nested dict patterns included)
+    if _has_tuple(target):
+        r2 = pyval.Realiser()
+        t2 = _rows(r2.build(case['target']))
+        spec2 = pyspec.build(case['spec'], r2)
+        try:
+            o2 = ('ok', _plain(glom.glom(t2, spec2)))
+        except Exception as e:
+            o2 = ('raise', pyval.exc_outcome(e)['raise'])
+        try:
+            o1 = ('ok', _plain(glom.glom(r2.build(case['target']), pyspec.build(case['spec'], r2))))
+        except Exception as e:
+            o1 = ('raise', pyval.exc_outcome(e)['raise'])
+        if o1 != o2:
+            out['row_variant'] = 'plain tuples give %r, tuple-subclass rows give %r' % (o1, o2)
     return out
+
+
+class Row(tuple):
+    __slots__ = ()
+
+
+def _has_tuple(x):
+    if isinstance(x, tuple):
+        return True
+    if isinstance(x, dict):
+        return any(_has_tuple(v) for v in x.values())
+    if isinstance(x, list):
+        return any(_has_tuple(v) for v in x)
+    return False
+
+
+def _rows(x):
+    if isinstance(x, tuple):
+        return Row(_rows(v) for v in x)
+    if type(x) is dict:
+        return {k: _rows(v) for k, v in x.items()}
+    if type(x) is list:
+        return [_rows(v) for v in x]
+    return x
+
+
+def _plain(x):
+    if isinstance(x, tuple):
+        return tuple(_plain(v) for v in x)
+    if type(x) is dict:
+        return {k: _plain(v) for k, v in x.items()}
+    if type(x) is list:
+        return [_plain(v) for v in x]
+    return x
 
 
 coq_case = c03.coq_case
@@ -267,6 +317,8 @@ def direct_oracle(case, out):
             return 'matches() and verify() disagree'
     if out.get('target_untouched') is False:
         return 'the target was modified by Match'
+    if out.get('row_variant'):
+        return out['row_variant']
     if 'raise' in out and out['raise'] not in ('MatchError', 'TypeMatchError') and 'GlomError' in out.get('isa', []):
         return 'rejection is not a MatchError: %s' % out['raise']
     if out.get('raise') == 'TypeMatchError' and 'TypeError' not in out.get('isa', []):
